@@ -40,19 +40,23 @@ pub fn replay(input: &str, output: &str) -> Value {
 	let mut out = Out::create(output);
 	let mut impl_equal = 0u64;
 	let mut with_eviction = 0u64;
-	for case in &cases {
+	for (ci, case) in cases.iter().enumerate() {
 		let cap = case["cap"].as_u64().unwrap() as usize;
 		let nk = case["nk"].as_u64().unwrap() as usize;
 		let hist = case["hist"].as_array().unwrap();
 		let mut c = LimitedCache::<u32, i64>::verif_with_capacity(cap);
 		let n = hist.len();
-		for op in &hist[..n - 1] {
-			apply(&mut c, op["op"].as_str().unwrap(), op["k"].as_u64().unwrap() as u32, op["v"].as_i64().unwrap());
+		// the whole history is replayed from the empty cache and EVERY step is logged: which entry counts as "just used"
+		// is then derived by the trace specification from the real states, not taken from the model that generated the case
+		out.emit(&json!({"ev":"Init","cap":cap,"entries":vec![0i64; nk],"mru":0,"case":ci}));
+		let (mut pre, mut post, mut ret) = (snapshot(&c, nk), snapshot(&c, nk), 0i64);
+		for (j, op) in hist.iter().enumerate() {
+			pre = snapshot(&c, nk);
+			ret = apply(&mut c, op["op"].as_str().unwrap(), op["k"].as_u64().unwrap() as u32, op["v"].as_i64().unwrap());
+			post = snapshot(&c, nk);
+			out.emit(&json!({"ev":"Op","op":op["op"],"k":op["k"],"v":op["v"],"ret":ret,"post":post,"case":ci,"last":(j + 1 == n) as u8}));
 		}
-		let pre = snapshot(&c, nk);
 		let op = &hist[n - 1];
-		let ret = apply(&mut c, op["op"].as_str().unwrap(), op["k"].as_u64().unwrap() as u32, op["v"].as_i64().unwrap());
-		let post = snapshot(&c, nk);
 		let implpost: Vec<i64> = case["implpost"].as_array().unwrap().iter().map(|x| x.as_i64().unwrap()).collect();
 		if implpost == post && case["implret"].as_i64().unwrap() == ret {
 			impl_equal += 1;
@@ -62,8 +66,6 @@ pub fn replay(input: &str, output: &str) -> Value {
 		if post_n < pre_n || (post_n == pre_n && pre != post && op["op"] != "get") {
 			with_eviction += 1;
 		}
-		out.emit(&json!({"ev":"Init","cap":cap,"entries":pre,"mru":case["mru"]}));
-		out.emit(&json!({"ev":"Op","op":op["op"],"k":op["k"],"v":op["v"],"ret":ret,"post":post}));
 	}
 	let lines = out.finish();
 	json!({"cases": cases.len(), "events": lines, "equal_to_impl_layer": impl_equal, "steps_with_eviction": with_eviction})
